@@ -11,6 +11,9 @@
 import YalafiVerif.Proofs.Inv.Basic
 import YalafiVerif.Proofs.Utils
 import YalafiVerif.Proofs.GenRepl
+import YalafiVerif.Proofs.PlainHeading
+import YalafiVerif.Proofs.PlainItem
+import YalafiVerif.Generated.Init
 namespace Yalafi
 
 theorem C04_latexError_anchor (T : Tables) (hm : T.mark ≠ []) (err : Str) (pos n : Nat) (hp : pos < n) :
@@ -33,5 +36,50 @@ theorem C04_genRepl_anchor (args : List (List Tok)) (repl : List Tok) (start : N
       (t.fix = true ∧ (t.pos = start ∨ ∃ a ∈ args, ∃ u ∈ a, t.pos = u.pos)) ∨
       (∃ a ∈ args, ∃ u ∈ a, t = mkAction u.pos) :=
   genRepl_anchor args repl start out h
+
+/-- **headings**, end to end on the filter model: for documents of inert text and
+    `\\section{title}`-like headings (any macro declared with `*OA` and the heading handler; inert
+    non-blank title without line break), every heading is replaced by its title, followed by a full
+    stop unless the title ends with a mark of `heading_punct`; title characters map to their own
+    positions and the generated full stop maps INTO the heading (the start of the last token of the
+    title); text keeps its positions; no line is deleted; no unknowns, no diagnostics -/
+theorem C04_heading_e2e (T : PTables) (o : Options) (fs : FS) (thresh : Nat) (segs : List PlainHeading.Seg)
+    (fuel : Nat) (st1 : PState)
+    (hdefs : o.defs = []) (hextr : o.extr = []) (hrepl : o.hasRepl = false) (hunkn : o.unkn = false)
+    (hinit : initParser T fuel o (initialState T o false fs) = .ok ((), st1))
+    (hst : PlainHeading.stateOk T st1 = true) (hok : PlainHeading.segsOk T st1 segs = true)
+    (hf : (PlainHeading.render segs).length + 4 ≤ fuel) :
+    ∃ r, tex2txt T fuel (PlainHeading.render segs) o false thresh fs = .ok r ∧
+      r.txt = PlainHeading.outText T segs ∧
+      r.txt = (PlainHeading.refOut T 0 segs).map (·.1) ∧
+      r.pos = (PlainHeading.refOut T 0 segs).map (fun cp => cp.2 + 1) ∧
+      r.unknowns = [] ∧ r.diags = st1.diags ∧ r.foreign = false :=
+  PlainHeading.tex2txt_heading T o fs thresh segs fuel st1 hdefs hextr hrepl hunkn hinit hst hok hf
+
+/-- **list items**, end to end on the filter model: for documents of inert text, `\\begin{name}` /
+    `\\end{name}` of declared list environments (any nesting) and unlabelled `\\item`s, the k-th
+    `\\item` of a list is replaced by blank + its default label + blank with every generated
+    character mapped to the backslash of that `\\item`; item texts keep their own positions; the
+    `\\begin` / `\\end` lines vanish (`delLines`: exact character-level model of blank-line removal);
+    no unknowns, no diagnostics -/
+theorem C04_items_e2e (T : PTables) (o : Options) (fs : FS) (thresh : Nat) (segs : List PlainItem.Seg)
+    (fuel : Nat) (st1 : PState)
+    (hdefs : o.defs = []) (hextr : o.extr = []) (hrepl : o.hasRepl = false) (hunkn : o.unkn = false)
+    (hinit : initParser T fuel o (initialState T o false fs) = .ok ((), st1))
+    (hok : PlainItem.SegsOk T st1 segs) (hf : (PlainItem.render segs).length + 4 ≤ fuel) :
+    ∃ r, tex2txt T fuel (PlainItem.render segs) o false thresh fs = .ok r ∧
+      r.txt = (PlainMacro.delLines (PlainItem.segMarks T st1 st1.itemStack 0 segs)).map (·.1) ∧
+      r.pos = (PlainMacro.delLines (PlainItem.segMarks T st1 st1.itemStack 0 segs)).map (·.2 + 1) ∧
+      r.unknowns = [] ∧ r.diags = st1.diags ∧ r.parts = [] :=
+  PlainItem.tex2txt_lists T o fs thresh segs fuel st1 hdefs hextr hrepl hunkn hinit hok hf
+
+/-- the state hypotheses of the heading theorem hold for the parser initialised from the tables of
+    the current /repo, and a concrete document satisfies its side conditions -/
+theorem C04_heading_current :
+    PlainHeading.stateOk Generated.theTables Generated.stDefault = true ∧
+    PlainHeading.segsOk Generated.theTables Generated.stDefault
+      [.head "section".toList "First title".toList, .txt "\nSome text.\n".toList, .head "subsection".toList "Is it so?".toList,
+       .txt "\nMore.\n".toList] = true := by
+  decide +kernel
 
 end Yalafi
